@@ -1,8 +1,8 @@
 SPECIFICATION FairSpec
 CONSTANTS
-  Configs <- QuickConfigs
-  NP = 2
-  NT = 1
+  Configs <- P1T2Configs
+  NP = 1
+  NT = 2
   LockMode = "exclusive"
   MaxCrashes = 0
   CrashPlans <- AnyTime
